@@ -741,3 +741,141 @@ Lemma storage_disjoint_discharged_lemma : forall fx jops st fp cops,
 Proof.
   intros fx jops st fp cops J. apply storage_disjoint_lemma. apply (first_pages_distinct_lemma fx jops st _ J).
 Qed.
+
+(** * The current engine ([pa_now]): the callers' contract and the owned half of the image condition suffice *)
+
+Lemma guard_now_spec_lemma : forall st o, pa_guard_all pa_now st o = pa_guard_now st o.
+Proof.
+  intros st o. unfold pa_guard_all, pa_guard_now, pa_now. f_equal.
+  destruct o; cbn [pa_image_ok pa_owned_ok orb]; try reflexivity; apply andb_true_r.
+Qed.
+
+Lemma run_g_ext : forall fx g1 g2, (forall st o, g1 st o = g2 st o) ->
+  forall ops st, pa_run_g fx g1 st ops = pa_run_g fx g2 st ops.
+Proof.
+  intros fx g1 g2 E. induction ops as [|o ops IH]; intro st; cbn [pa_run_g]; [reflexivity|].
+  rewrite E. destruct (g2 st o); [|reflexivity]. destruct (pa_step fx st o) as [s1 out]. rewrite IH. reflexivity.
+Qed.
+
+Definition pa_reach_now (st : pa_state) : Prop :=
+  exists ops outs, pa_run_g pa_now pa_guard_now pa_init ops = Some (st, outs).
+
+Lemma reach_now_iff : forall st, pa_reach_now st <-> pa_reach pa_now st.
+Proof.
+  intro st. unfold pa_reach_now, pa_reach. split; intros (ops & outs & R); exists ops, outs.
+  - rewrite (run_g_ext pa_now _ _ guard_now_spec_lemma). exact R.
+  - rewrite <- (run_g_ext pa_now _ _ guard_now_spec_lemma). exact R.
+Qed.
+
+Lemma new_page_fresh_now_lemma : forall st o st' p, pa_reach_now st -> (o = ONew \/ o = ONewHeap) ->
+  pa_client_ok st o = true -> pa_step pa_now st o = (st', PONew p) ->
+  ~ In p (pa_inuse st) /\ ~ In p (pa_flagged st) /\ ~ In p (pa_pending st) /\ pa_inuse st' = p :: pa_inuse st.
+Proof. intros st o st' p R. apply reach_now_iff in R. apply new_page_fresh_lemma. exact R. Qed.
+
+Lemma inuse_distinct_now_lemma : forall st, pa_reach_now st -> NoDup (pa_inuse st).
+Proof. intros st R. apply reach_now_iff in R. apply (inuse_distinct_lemma _ _ R). Qed.
+
+Lemma reusable_ok_now_lemma : forall st, pa_reach_now st ->
+  NoDup (pa_reusable st) /\ (forall p, In p (pa_reusable st) -> ~ In p (pa_inuse st))
+  /\ (forall p, In p (pa_reusable st) -> ~ In p (pa_flagged st))
+  /\ (forall p, In p (pa_reusable st) -> p < pa_next st)
+  /\ (forall p, In p (pa_inuse st) -> p < pa_next st).
+Proof.
+  intros st R. apply reach_now_iff in R. pose proof (reusable_ok_lemma _ _ R) as (A & B & C).
+  apply reach_inv in R. destruct R. auto 10.
+Qed.
+
+Lemma checkers_now_lemma : forall st, pa_reach_now st ->
+  (match pa_reusable st with p :: _ => negb (memN p (pa_pending st)) | [] => true end = true -> pa_new_fresh st = true)
+  /\ pa_inuse_nodup st = true /\ pa_reusable_ok st = true.
+Proof. intros st R. apply reach_now_iff in R. apply (checkers_lemma _ _ R). Qed.
+
+(** what the start-up establishes by itself, from ANY state, with ANY inputs: every id of the rebuilt reusable list is
+    below the allocator's next id, and the list has no duplicates *)
+Lemma restart_reusable_below_next_lemma : forall st kept surv order p,
+  In p (pa_reusable (pa_restart pa_now st kept surv order)) -> p < pa_next (pa_restart pa_now st kept surv order).
+Proof.
+  intros st kept surv order p. unfold pa_restart, pa_now.
+  pose proof (bump_ok (firstn kept (pa_log st)) (pa_fsize st)) as B.
+  destruct (pa_bump (firstn kept (pa_log st)) (pa_fsize st)) as [nx fs]. cbn [fst snd] in B. projs.
+  intro A. apply (now_next_ok _ nx fs p B A).
+Qed.
+
+Lemma restart_reusable_nodup_lemma : forall fx st kept surv order,
+  NoDup (pa_reusable (pa_restart fx st kept surv order)).
+Proof.
+  intros fx st kept surv order. unfold pa_restart. destruct (pa_bump _ _). projs.
+  destruct (pa_perm_b order (pa_lset (firstn kept (pa_log st)))) eqn:E.
+  - apply (perm_b_spec _ _ (lset_NoDup _) E).
+  - apply lset_NoDup.
+Qed.
+
+Lemma owned_ok_guard : forall st o, pa_client_ok st o = true -> pa_owned_ok st o = true -> pa_guard_all pa_now st o = true.
+Proof. intros st o A B. rewrite guard_now_spec_lemma. unfold pa_guard_now. rewrite A, B. reflexivity. Qed.
+
+Lemma clean_restart_now_lemma : forall st order st', pa_reach_now st ->
+  pa_owned_ok st (OCleanRestart order) = true ->
+  st' = fst (pa_step pa_now st (OCleanRestart order)) ->
+  pa_reach_now st' /\ pa_inuse st' = pa_inuse st /\
+  (forall p, In p (pa_reusable st) -> In p (pa_pending st) \/ In p (pa_reusable st')) /\
+  (forall p, In p (pa_reusable st') -> ~ In p (pa_inuse st')) /\
+  (forall p, In p (pa_reusable st') -> p < pa_next st').
+Proof.
+  intros st order st' R G E. apply reach_now_iff in R.
+  assert (GI : pa_image_ok pa_now st (OCleanRestart order) = true).
+  { cbn [pa_owned_ok] in G. cbn [pa_image_ok pa_now orb]. rewrite G. reflexivity. }
+  pose proof (clean_restart_lemma pa_now st order st' R GI E) as (A & B & C & D).
+  split; [apply reach_now_iff; exact A|]. split; [exact B|]. split; [exact C|]. split; [exact D|].
+  subst st'. cbn [pa_step fst]. apply restart_reusable_below_next_lemma.
+Qed.
+
+Lemma crash_restart_now_lemma : forall st kept surv order st', pa_reach_now st ->
+  pa_client_ok st (OCrashRestart kept surv order) = true ->
+  pa_owned_ok st (OCrashRestart kept surv order) = true ->
+  st' = fst (pa_step pa_now st (OCrashRestart kept surv order)) ->
+  pa_reach_now st' /\ (forall p, In p (pa_inuse st') <-> In p (pa_inuse st) /\ In p surv) /\
+  (forall p, In p (pa_reusable st') -> ~ In p (pa_inuse st')) /\
+  (forall p, In p (pa_reusable st') -> p < pa_next st').
+Proof.
+  intros st kept surv order st' R Gc G E. apply reach_now_iff in R.
+  assert (GI : pa_image_ok pa_now st (OCrashRestart kept surv order) = true).
+  { cbn [pa_owned_ok] in G. cbn [pa_image_ok pa_now orb]. rewrite G. reflexivity. }
+  pose proof (crash_restart_lemma pa_now st kept surv order st' R Gc GI E) as (A & B & C).
+  split; [apply reach_now_iff; exact A|]. split; [exact B|]. split; [exact C|].
+  subst st'. cbn [pa_step fst]. apply restart_reusable_below_next_lemma.
+Qed.
+
+(** the repair on the witness of the defect: the restart that was ill formed before is inside the hypotheses now, and
+    NewPage returns 2, 3, 4 *)
+Lemma witness_now_lemma :
+  exists st outs, pa_run_g pa_now pa_guard_now pa_init witness_beyond_file = Some (st, outs) /\
+    nth 11 outs POBad = PONew 2 /\ nth 12 outs POBad = PONew 3 /\ nth 13 outs POBad = PONew 4 /\
+    pa_inuse st = [4; 3; 2; 1; 0].
+Proof. vm_compute. do 2 eexists. repeat split. Qed.
+
+(** the log race, in the terms of the current engine's hypotheses (and, same run, of the pre-fix start-up) *)
+Lemma log_race_now_lemma :
+  exists ops st outs,
+    pa_run_g pa_now (fun st o => pa_client_ok_norace st o && pa_owned_ok st o) pa_init ops = Some (st, outs) /\
+    pa_run_g pa_prefix (fun st o => pa_client_ok_norace st o && pa_image_ok pa_prefix st o) pa_init ops = Some (st, outs) /\
+    ~ NoDup (pa_inuse st) /\ nth 6 outs POBad = PONew 1 /\ nth 9 outs POBad = PONew 1.
+Proof.
+  exists witness_log_race. vm_compute. do 2 eexists. split; [reflexivity|]. split; [reflexivity|].
+  split; [|split; reflexivity].
+  intro H. inversion H as [|x l Hx Hl]. apply Hx. left. reflexivity.
+Qed.
+
+(** the pre-fix start-up under the full image hypothesis ([_partial] form of the refuted statement) *)
+Lemma prefix_partial_lemma : forall st, pa_reach pa_prefix st ->
+  NoDup (pa_inuse st) /\ NoDup (pa_reusable st) /\ (forall p, In p (pa_reusable st) -> ~ In p (pa_inuse st)).
+Proof.
+  intros st R. pose proof (reusable_ok_lemma _ _ R) as (A & B & _). split; [apply (inuse_distinct_lemma _ _ R)|auto].
+Qed.
+
+Lemma first_pages_now_lemma : forall ops st tp, pa_jrun pa_now pa_init [] ops = Some (st, tp) -> NoDup tp.
+Proof. intros ops st tp. apply first_pages_distinct_lemma. Qed.
+
+Lemma storage_disjoint_now_lemma : forall jops st fp cops,
+  pa_jrun pa_now pa_init [] jops = Some (st, fp :: pages_of_ops cops) ->
+  NoDup (map snd (tabs (crun1 reload cops (bootstrap fp)))).
+Proof. intros jops st fp cops. apply storage_disjoint_discharged_lemma. Qed.
